@@ -33,7 +33,9 @@ def main():
             checks = [f"C{k:02d}" for k in range(1, 21)] if v == "all" else v.split(",")
         if a.startswith("--tier"):
             tier = a.split("=", 1)[1]
-    sid = os.path.basename(os.path.dirname(src.rstrip("/"))).replace("wt_", "") if src.startswith("/tmp/wt_") else os.path.basename(src.rstrip("/"))
+    sid = os.path.basename(src.rstrip("/"))
+    if sid == "_seed":      # <scratch worktree>/_seed : name the record after the worktree (wt_C01 -> C01, w2_C01 -> w2_C01)
+        sid = os.path.basename(os.path.dirname(src.rstrip("/"))).replace("wt_", "")
     dst = os.path.join(VERIF, "seeded", sid)
     os.makedirs(dst, exist_ok=True)
     for f in ("patch.diff", "demo.py", "meta.json"):
